@@ -90,7 +90,9 @@ def gen_family(ctx, exe, label, spec, bound, budget, batch, order, allow, procs,
                      % (label, bound, fam['generated'], fam['after_contract'], fam['after_relevance'], n, len(legs), len(complete),
                         nex, min(outs) if outs else '-', max(outs) if outs else '-', sum(1 for o in outs if o <= 1), time.time() - t0))
     # vacuity guard: a family whose scripts all have a single outcome collides with nothing
-    if legs and max(outs) <= 1 and not sum(int(l.get('violations', 0)) for l in legs):
+    if legs and max(outs) <= 1 and len(complete) < n and not sum(int(l.get('violations', 0)) for l in legs):
+        ctx.notes.append('%s: the %d scripts explored before the budget cut all have a single outcome (vacuity is only judged on a completely explored family)' % (label, len(legs)))
+    elif legs and max(outs) <= 1 and not sum(int(l.get('violations', 0)) for l in legs):
         ctx.broken.append('%s: every script of the family has a single outcome: the alphabet collides with nothing' % label)
 
 
